@@ -385,6 +385,10 @@ def gen_server_caps(rng):
     if v10: caps.append(v10)
     if v11: caps.append(v11)
     for _ in range(rng.choice([0, 1, 2, 4])): caps.append(rng.choice(PAD))
+    if rng.random() < 0.3:        # sloppy but legal-to-receive query strings: trailing &, &&, a flag without =, a value containing =
+        caps.append(rng.choice(['http://example.com/mod?module=m&revision=2020-01-01&', 'urn:x:cap?a=1&&b=2', 'urn:x:cap?flag',
+                                'urn:ietf:params:netconf:capability:with-defaults:1.0?basic-mode=explicit&also-supported=trim=',
+                                'http://example.com/y?module=y&features=a,b&deviations=', 'urn:x:cap?', 'urn:x:cap?=&=']))
     rng.shuffle(caps)
     if caps and rng.random() < 0.2: caps.append(rng.choice(caps))
     return caps
